@@ -215,49 +215,46 @@ def d5(ctx, rep):
     rep.rule('D5.column', 'each column is fitted with the distribution looked up under its own name (dict: get(name, default); otherwise the configured object)')
     fn = prog.method(GM, '_get_distribution_for_column')
     cp = fn.params[1]
-    found = {'dict': False, 'other': False}
-    for p in enum_paths(fn.body()):
-        if not isinstance(p.end, ast.Return):
-            continue
-        isdict = None
-        for test, pol in p.conds:
-            if isinstance(test, ast.Call) and call_name(test) == 'isinstance' and is_self_attr(test.args[0], fn.self_name, 'distribution') \
-                    and isinstance(test.args[1], ast.Name) and test.args[1].id == 'dict':
-                isdict = pol
-        v = p.end.value
-        if isdict is True:
-            found['dict'] = True
-            good = isinstance(v, ast.Call) and call_name(v) == 'get' and is_self_attr(v.func.value, fn.self_name, 'distribution') \
-                and len(v.args) == 2 and isinstance(v.args[0], ast.Name) and v.args[0].id == cp \
-                and prog.resolve(fn.module, v.args[1]) == 'copulas.multivariate.gaussian.DEFAULT_DISTRIBUTION'
-            rep.check('D5.column', fn, p.end, good, 'dict -> distribution.get(column_name, DEFAULT_DISTRIBUTION)',
-                      'the per-column dict is not looked up under the column name with the default for unnamed columns')
-        elif isdict is False:
-            found['other'] = True
-            rep.check('D5.column', fn, p.end, is_self_attr(v, fn.self_name, 'distribution'), 'otherwise the configured object',
-                      'a non-dict configuration is not used as given')
-    for k, f in found.items():
-        if not f:
-            rep.undecided('D5.column', fn, fn.node.name, f'branch `{k}` not recognised', construct=f'branch {k}')
-    fc = prog.method(GM, '_fit_columns')
-    loops = [n for n in walk_no_nested(fc.node) if isinstance(n, ast.For) and isinstance(n.iter, ast.Call) and call_name(n.iter) == 'items']
-    good = False
-    if loops and isinstance(loops[0].target, ast.Tuple) and len(loops[0].target.elts) == 2:
-        kv, cv = (e.id for e in loops[0].target.elts)
-        look = [s for s in loops[0].body if isinstance(s, ast.Assign) and isinstance(s.value, ast.Call)
-                and call_name(s.value) == '_get_distribution_for_column' and s.value.args and isinstance(s.value.args[0], ast.Name)
-                and s.value.args[0].id == kv]
-        if look:
-            dv = look[0].targets[0].id
-            fitc = [c for c in ast.walk(loops[0]) if isinstance(c, ast.Call) and call_name(c) == '_fit_column']
-            if fitc:
-                b = {}
-                target = prog.method(GM, '_fit_column')
-                from .c20 import get_alias
-                b = get_alias(ctx).bind(fc, fitc[0], target)
-                good = (getattr(b.get('column', [None])[0], 'id', None) == cv and getattr(b.get('distribution', [None])[0], 'id', None) == dv)
-    rep.check('D5.column', fc, loops[0] if loops else fc.node.name, good, 'the distribution looked up for a column name is fitted on that column',
-              'the distribution looked up for one column is fitted on another (or a fixed one)', construct='index agreement in _fit_columns')
+    from ..boolcond import Conds, atoms_of, evaluate
+    from ..idioms import resolve
+    cd = Conds(prog, fn)
+    _n, _rs, rets = cd.exits()
+    keys = set()
+    for _st, c in rets:
+        keys |= set(atoms_of(c))
+    kd = [k for k in keys if k.startswith('isinstance[') and k.endswith(',dict]') and 'distribution' in k]
+    if len(kd) != 1 or keys - set(kd):
+        rep.undecided('D5.column', fn, fn.node.name, f'dispatch on the configuration type not recognised ({sorted(keys)})', construct='configuration dispatch')
+    else:
+        for isdict in (True, False):
+            hit = [st for st, c in rets if evaluate(c, {kd[0]: isdict})]
+            if len(hit) != 1:
+                rep.undecided('D5.column', fn, fn.node.name, f'{len(hit)} outcomes for dict={isdict}', construct=f'branch dict={isdict}')
+                continue
+            v = resolve(fn.node, hit[0].value) if hit[0].value is not None else None
+            if isdict:
+                recv = resolve(fn.node, v.func.value) if isinstance(v, ast.Call) and isinstance(v.func, ast.Attribute) else None
+                good = isinstance(v, ast.Call) and call_name(v) == 'get' and is_self_attr(recv, fn.self_name, 'distribution') \
+                    and len(v.args) == 2 and isinstance(v.args[0], ast.Name) and v.args[0].id == cp \
+                    and prog.resolve(fn.module, v.args[1]) == 'copulas.multivariate.gaussian.DEFAULT_DISTRIBUTION'
+                rep.check('D5.column', fn, hit[0], good, 'dict -> distribution.get(column_name, DEFAULT_DISTRIBUTION)',
+                          'the per-column dict is not looked up under the column name with the default for unnamed columns', construct='dict branch')
+            else:
+                rep.check('D5.column', fn, hit[0], is_self_attr(v, fn.self_name, 'distribution'), 'otherwise the configured object',
+                          'a non-dict configuration is not used as given', construct='non-dict branch')
+    from . import gauss
+    fit, vals = gauss.fit_pipeline(ctx)
+    st_u, vu = vals['univariates']
+    anchor = st_u if st_u is not None else fit.node.name
+    if isinstance(vu, tuple) and len(vu) == 3 and vu[0] == 'list' and isinstance(vu[1], tuple) and vu[1] and vu[1][0] == 'fit':
+        _t, lcol, ldist, lname = vu[1]
+        if lcol is None or ldist is None:
+            rep.undecided('D5.column', fit, anchor, 'the column / distribution handed to _fit_column was not recognised', construct='index agreement in _fit_columns')
+        else:
+            rep.check('D5.column', fit, anchor, lcol == ldist, 'the distribution looked up for a column name is fitted on that column',
+                      'the distribution looked up for one column is fitted on another (or a fixed one)', construct='index agreement in _fit_columns')
+    else:
+        rep.undecided('D5.column', fit, anchor, f'the per-column fit was not recognised ({vu})', construct='index agreement in _fit_columns')
 
 
 def d6(ctx, rep):
@@ -280,11 +277,15 @@ def d6(ctx, rep):
     fvar = fits[0].func.value.id if isinstance(fits[0].func.value, ast.Name) else None
     rets = [n for n in walk_no_nested(fn.node) if isinstance(n, ast.Return)]
     reassigned = None
+    direct = False
     for h in t.handlers:
         for s in h.body:
             if isinstance(s, ast.Assign) and isinstance(s.targets[0], ast.Name) and isinstance(s.value, ast.Call):
                 reassigned = (s, s.targets[0].id, s.value)
-    good = reassigned is not None and rets and isinstance(rets[-1].value, ast.Name) and rets[-1].value.id == reassigned[1] == fvar
+            if isinstance(s, ast.Return) and isinstance(s.value, ast.Call):
+                reassigned = (s, None, s.value)
+                direct = True
+    good = reassigned is not None and (direct or (rets and isinstance(rets[-1].value, ast.Name) and rets[-1].value.id == reassigned[1] == fvar))
     rep.check('D6.fallback', fn, reassigned[0] if reassigned else t, bool(good), 'the handler replaces the model that is returned',
               'the fallback model is not the one returned', construct='handler result returned')
     if reassigned:
